@@ -4,3 +4,6 @@ from . import rules_c04
 
 def run(R):
     rules_c04.run_c15(R)
+    # MIN / MAX commute only if the comparison they fold with is one total order: partial_cmp (what `<` and `>` call) agrees with cmp
+    from . import rules_c16
+    rules_c16.float_key_agreement(R, "C15.order")
